@@ -229,11 +229,12 @@ func (p *Program) VerifyFuncRebinding(fi *FuncInfo, discharged func([]*Obligatio
 		}
 		fi.C.Loops = orig
 		p.resetClauseChecks(fi.C)
+		res = p.VerifyFunc(fi) // re-populates the clause check results that (2) reads
 	}
 	// (2) a local named by a hint was renamed
 	missing := p.unresolvedLocals(fi)
 	if len(missing) == 0 || len(missing) > 2 {
-		return p.VerifyFunc(fi)
+		return res
 	}
 	locals := p.localNames(fi)
 	if len(locals) > 16 {
